@@ -73,12 +73,13 @@ class Layout:
         ymax = float("-inf")
 
         for zone in chain(self.static_traps.values(), self.special_grid.values()):
-            if zone.x_init is not None:
-                xmin = min(xmin, zone.x_init)
-                xmax = max(xmax, zone.x_init + zone.width)
-            if zone.y_init is not None:
-                ymin = min(ymin, zone.y_init)
-                ymax = max(ymax, zone.y_init + zone.height)
+            if zone.x_init is None or zone.y_init is None:
+                # a zone with an empty axis has no sites
+                continue
+            xmin = min(xmin, zone.x_init)
+            xmax = max(xmax, zone.x_init + zone.width)
+            ymin = min(ymin, zone.y_init)
+            ymax = max(ymax, zone.y_init + zone.height)
 
         if (
             xmin == float("inf")
